@@ -4,10 +4,12 @@ import Driver.Concurrency
 import Driver.Facet
 import Driver.Field
 import Driver.Keyword
+import Driver.Lexicon
 import Driver.Persist
 import Driver.QParser
 import Driver.Query
 import Driver.Reads
+import Driver.Text
 import Driver.Widcode
 open Driver
 
@@ -17,10 +19,12 @@ def sessions : List (String × Sess) := [
   ("facet", FacetS.sess),
   ("field", FieldS.sess),
   ("keyword", KeywordS.sess),
+  ("lexicon", LexiconS.sess),
   ("persist", PersistS.sess),
   ("qparser", QParserS.sess),
   ("query", QueryS.sess),
   ("reads", ReadsS.sess),
+  ("text", TextS.sess),
   ("widcode", WidcodeS.sess)
 ]
 
